@@ -1,7 +1,7 @@
 """C15 extras: a rejected value must leave the object as it was -- for Arrays this includes in-place operators of which only some
 items overflow (shared with C14)."""
 META = {'explanation': 'range/length rejection proved on the setters, helpers and routes; Array in-place operators: bounded list-model differential with rollback.'}
-EXTRA_TASKS = ['array_inplace_rollback']
+EXTRA_TASKS = ['array_inplace_rollback', 'creation_routes_isolation', 'array_item_width_mismatch']
 
 
 def array_inplace_rollback(tier='quick', seed=0):
@@ -11,3 +11,64 @@ def array_inplace_rollback(tier='quick', seed=0):
         b['id'] = b['id'].replace('C14/', 'C15/')
     r['id'] = 'C15.inplace'
     return r
+
+
+def creation_routes_isolation(tier='quick', seed=0):
+    """(shared with C04) an in-range (value, length) keeps being accepted, with the same bits, after an object created from the same (value, length) has been changed in place"""
+    from props import C04
+    r = C04.dtype_routes_isolation(tier, seed)
+    for b in r.get('bounded', []):
+        b['id'] = b['id'].replace('C04/', 'C15/')
+    r['id'] = 'C15.isolation'
+    return r
+
+
+def array_item_width_mismatch(tier='quick', seed=0):
+    """an Array is never filled from an Array whose items have another width: the bits would be re-cut into items of the wrong size
+    (values silently truncated, merged or wrapped).  Array(fmt, other) and a.extend(other) must raise and leave `a` as it was; with the
+    identical format they succeed and the items are appended.  Bounded, native."""
+    import bitstring
+    from bitstring import Array
+    fmts = [('uint8', [1, 2]), ('uint16', [300, 7]), ('uint4', [9, 1]), ('int8', [-3, 4]), ('int4', [-8, 7]), ('int16', [-300, 5]), ('uintbe16', [5, 258]),
+            ('uintbe24', [70000, 3]), ('uintle16', [258, 1]), ('uintle32', [70000, 2]), ('float16', [1.5, -2.0]), ('float32', [1.5, 3.25]),
+            ('float64', [2.5, -1.0]), ('hex8', ['ab', '0f']), ('hex16', ['abcd', '0123']), ('bin3', ['101', '010']), ('bin6', ['101010', '000111']),
+            ('bits5', ['0b10101', '0b00001']), ('bits10', ['0b1010101010', '0b0000011111']), ('bytes1', [b'a', b'b']), ('bytes2', [b'ab', b'cd'])]
+    fails = []
+    evals = 0
+    for f1, v1 in fmts:
+        for f2, v2 in fmts:
+            d1, d2 = bitstring.Dtype(f1), bitstring.Dtype(f2)
+            if f1 != f2 and (d1.name != d2.name or d1.bitlength == d2.bitlength):
+                continue            # (another item kind of the same or another width: refused today, but which kinds may mix is not this property's business)
+            for how in ('Array(f1, other)', 'a.extend(other)'):
+                evals += 1
+                other = Array(f2, v2)
+                a = Array(f1, v1)
+                before = (a.tolist(), a.data.bin)
+                try:
+                    if how == 'a.extend(other)':
+                        a.extend(other)
+                        got = a.data.bin
+                        want = Array(f1, v1 + v2).data.bin
+                    else:
+                        got = Array(f1, other).data.bin
+                        want = Array(f1, v2).data.bin
+                    outcome = 'accepted'
+                except (ValueError, TypeError):
+                    outcome = 'rejected'
+                same_fmt = f1 == f2
+                if same_fmt:
+                    ok = outcome == 'accepted' and got == want
+                else:
+                    ok = outcome == 'rejected' and (a.tolist(), a.data.bin) == before
+                if not ok:
+                    fails.append({'call': f'{how} with f1 = {f1!r} ({v1}), other = Array({f2!r}, {v2})', 'observed': f'{outcome}; a = {a.tolist()}',
+                                  'expected': 'the items appended' if same_fmt else 'ValueError/TypeError and the target unchanged',
+                                  'python': f"import bitstring\nother = bitstring.Array({f2!r}, {v2!r})\na = bitstring.Array({f1!r}, {v1!r})\nbefore = a.data.bin\n"
+                                            f"try:\n    a.extend(other)\n    r1 = 'accepted'\nexcept (ValueError, TypeError):\n    r1 = 'rejected'\n"
+                                            f"try:\n    bitstring.Array({f1!r}, other)\n    r2 = 'accepted'\nexcept (ValueError, TypeError):\n    r2 = 'rejected'\n"
+                                            + ("FAILS = r1 != 'accepted' or r2 != 'accepted'\n" if same_fmt else "FAILS = r1 != 'rejected' or r2 != 'rejected' or a.data.bin != before\n")})
+    return {'id': 'C15.array_widths', 'obligations': [], 'evaluations': evals,
+            'bounded': [{'id': 'C15/array_.Array.extend/an-Array-of-another-item-width-is-refused', 'qualname': 'array_.Array.extend', 'shape': 'pairs of item formats of one kind',
+                         'function': 'Array(fmt, Array) / Array.extend(Array)', 'bound': f'{evals} (format pair, route) points', 'evaluations': evals, 'failures': fails[:3]}],
+            'summary': f'{evals} points, {len(fails)} failures'}
